@@ -77,6 +77,32 @@ def addEdgesFrom (G : SimpleG) (es : List (Int × Int)) : Except Err SimpleG :=
 
 def ofEdges (n : Nat) (es : List (Nat × Nat)) : Except Err SimpleG :=
   (init n).addEdgesFrom (es.map (fun e => ((e.1 : Int), (e.2 : Int))))
+
+/-- `Graph(n)`: `non_negative_int(n)` -/
+def initI (n : Int) : Except Err SimpleG :=
+  if n < 0 then .error .valueError else .ok (init n.toNat)
+
+/-- `add_edges_from` as the in-place loop it is: the edges before the first rejected one
+stay inserted; returns the final state and the exception (if any) -/
+def addEdgesFromP (G : SimpleG) : List (Int × Int) → SimpleG × Option Err
+  | [] => (G, none)
+  | e :: es =>
+    match G.addEdge e.1 e.2 with
+    | .ok G' => G'.addEdgesFromP es
+    | .error x => (G, some x)
+
+def numberOfVertices (G : SimpleG) : Nat := G.n
+def numberOfEdges (G : SimpleG) : Nat := G.m
+/-- `Graph.is_dag` is constantly `False` -/
+def isDag (_ : SimpleG) : Bool := false
+
+/-- `to_networkx`: the networkx object is modelled by what is put into it,
+the vertex count (nodes `1..n`) and the edge list -/
+def toNx (G : SimpleG) : Nat × List (Nat × Nat) := (G.n, G.edges)
+/-- `from_networkx` for a networkx graph with nodes `1..n` (so that
+`normalize_networkx_labels` is the identity) and the edges in the order/orientation
+networkx reports them -/
+def fromNx (N : Nat × List (Nat × Nat)) : Except Err SimpleG := ofEdges N.1 N.2
 end SimpleG
 
 /-! ### directed graphs -/
@@ -124,6 +150,25 @@ def addEdgesFrom (G : DiG) (es : List (Int × Int)) : Except Err DiG :=
   es.foldlM (fun g e => g.addEdge e.1 e.2) G
 def ofEdges (n : Nat) (es : List (Nat × Nat)) : Except Err DiG :=
   (init n).addEdgesFrom (es.map (fun e => ((e.1 : Int), (e.2 : Int))))
+
+def initI (n : Int) : Except Err DiG :=
+  if n < 0 then .error .valueError else .ok (init n.toNat)
+
+def addEdgesFromP (G : DiG) : List (Int × Int) → DiG × Option Err
+  | [] => (G, none)
+  | e :: es =>
+    match G.addEdge e.1 e.2 with
+    | .ok G' => G'.addEdgesFromP es
+    | .error x => (G, some x)
+
+def numberOfVertices (G : DiG) : Nat := G.n
+def numberOfEdges (G : DiG) : Nat := G.m
+def isDag (G : DiG) : Bool := G.stillDag
+def inDegree (G : DiG) (u : Int) : Except Err Nat := do let l ← G.predecessors u; pure l.length
+def outDegree (G : DiG) (u : Int) : Except Err Nat := do let l ← G.successors u; pure l.length
+
+def toNx (G : DiG) : Nat × List (Nat × Nat) := (G.n, G.edges)
+def fromNx (N : Nat × List (Nat × Nat)) : Except Err DiG := ofEdges N.1 N.2
 end DiG
 
 /-! ### bipartite graphs -/
@@ -167,6 +212,33 @@ def addEdgesFrom (G : BipG) (es : List (Int × Int)) : Except Err BipG :=
   es.foldlM (fun g e => g.addEdge e.1 e.2) G
 def ofEdges (l r : Nat) (es : List (Nat × Nat)) : Except Err BipG :=
   (init l r).addEdgesFrom (es.map (fun e => ((e.1 : Int), (e.2 : Int))))
+
+def initI (l r : Int) : Except Err BipG :=
+  if l < 0 ∨ r < 0 then .error .valueError else .ok (init l.toNat r.toNat)
+
+def addEdgesFromP (G : BipG) : List (Int × Int) → BipG × Option Err
+  | [] => (G, none)
+  | e :: es =>
+    match G.addEdge e.1 e.2 with
+    | .ok G' => G'.addEdgesFromP es
+    | .error x => (G, some x)
+
+def numberOfVertices (G : BipG) : Nat := G.l + G.r
+def rightDegree (G : BipG) (u : Int) : Except Err Nat := do let l ← G.rightNeighbors u; pure l.length
+def leftDegree (G : BipG) (v : Int) : Except Err Nat := do let l ← G.leftNeighbors v; pure l.length
+
+/-- `BaseBipartiteGraph.to_networkx`: nodes `1..l` (bipartite=0), `l+1..l+r` (bipartite=1),
+edges `(u, v+l)` -/
+def toNx (G : BipG) : Nat × Nat × List (Nat × Nat) :=
+  (G.l, G.r, G.edges.map (fun e => (e.1, e.2 + G.l)))
+/-- `BipartiteGraph.from_networkx` on such an object: an edge may be reported in either
+orientation; both ends on the same side is a `ValueError` -/
+def fromNxEdge (l : Nat) (e : Nat × Nat) : Except Err (Int × Int) :=
+  let ul := decide (e.1 ≤ l); let vr := decide (l < e.2)
+  if ul != vr then .error .valueError
+  else if ul then .ok ((e.1 : Int), ((e.2 - l : Nat) : Int)) else .ok ((e.2 : Int), ((e.1 - l : Nat) : Int))
+def fromNx (N : Nat × Nat × List (Nat × Nat)) : Except Err BipG :=
+  N.2.2.foldlM (fun g e => do let p ← fromNxEdge N.1 e; g.addEdge p.1 p.2) (init N.1 N.2.1)
 
 /-- `CompleteBipartiteGraph(L, R)` as a value -/
 def complete (l r : Nat) : BipG :=
